@@ -32,6 +32,9 @@ func init() {
 		chainProp("C07", "deterministic whole-node simulation: for valid blocks of 1..12 transactions built on the node's tip, a Byzantine relay first shows the node every kind of single mutation of the transaction list (change, remove, reorder, duplicate, duplicated tail = CVE-2012-2459 shape, coinbase moved, second coinbase) with the header untouched, and with the merkle root recomputed and re-mined where that keeps it rule-breaking; then the original",
 			"Each mutant must be rejected by ProcessBlock and leave the tip unchanged; blocks whose merkle root / coinbase position / duplicate-transaction rules are broken by a Byzantine miner (chainsim's ordinary workload) must never be on the active chain.",
 			"Lengths 1..12, odd and even (probes per length); 'all single mutations' is sampled per block (about 20 mutants per block), not enumerated."),
+		chainProp("C03", "deterministic whole-node simulation: Byzantine peers and clients deliver decodable but malformed material through the node's own ingress (ProcessBlock, AppendToTxPool, GenerateBlock): spends from addresses whose redeem script is a truncated / inconsistent multisig, garbage-key, Schnorr-shaped or cross-chain-shaped script with arbitrary parameter bytes, structurally mutated blocks, alongside the ordinary fork/reorg/restart workload; a panic anywhere in validation is caught at the ingress and reported",
+			"Every delivery runs under a recover at the ingress: a panic of sanity / context / signature / merged-mining validation is a violation (signature names the ingress and the shape); the node must also keep satisfying the chain invariants afterwards.",
+			"Shapes are a fixed catalogue (18 script shapes x 8 parameter shapes x 4 address prefixes) combined by seed with chain histories, not all decodable inputs; aux-proof crash shapes are exercised by auxsim (C10) and recorded there; PoW-era height regime."),
 		chainProp("C12", "deterministic whole-node simulation: seeded block trees (forks, heavier/equal/lighter branches, invalid blocks inside branches) delivered in permuted order with holds, duplicates and restarts; after every step the active chain is compared with the model's most-work valid chain among blocks the node retains",
 			"After every delivery and quiescence: the active chain consists of model-valid blocks; no valid chain whose blocks the node retains has strictly more work (irreversibility exception honoured); a delivery that errors must not move the node off its previous valid chain to a lighter one; height / per-height hashes / best chain agree.",
 			"\"Knows\" = what the node itself retains (BlockExists); equal work never obliges a switch; time-dependent rejections are generated away from the boundary."),
